@@ -73,6 +73,10 @@ func genOracle(fc *fileCache) {
 		Params: "(amt minColl : Int)", Type: "Bool", Default: "false",
 		Vars: map[string]Var{"currentCollateral.AmountOf(k.stakingKeeper.BondDenom(ctx))": iv("amt"), "params.MinimumCollateral": iv("minColl")}})
 
+	emitSite(fc, g, Site{Name: "collWeight", File: op, Func: "GetCollateralAmount", Loc: returnExpr(1),
+		Params: "(bondAmt : Int)", Type: "Int", Default: "0",
+		Vars: map[string]Var{"operator.Collateral.AmountOf(k.stakingKeeper.BondDenom(ctx))": iv("bondAmt")}})
+
 	score := map[string]Var{"ctx.BlockHeight()": iv("h"), "task.ClosingBlock": iv("closing"), "response.Score": iv("score"),
 		"types.MinScore": iv("minScore"), "types.MaxScore": iv("maxScore")}
 	emitSite(fc, g, Site{Name: "respClosed", File: tk, Func: "IsValidResponse", Loc: ifCond("ClosingBlock", 0),
@@ -92,6 +96,8 @@ func genOracle(fc *fileCache) {
 	ct := map[string]Var{"ctx.BlockHeight()": iv("h"), "task.ClosingBlock": iv("closing"), "waitingBlocks": iv("wait")}
 	emitSite(fc, g, Site{Name: "ctNotClosed", File: tk, Func: "CreateTask", Loc: ifCond("ClosingBlock", 0),
 		Params: "(closing h : Int)", Type: "Bool", Default: "false", Vars: ct})
+	emitSite(fc, g, Site{Name: "ctBadWait", File: tk, Func: "CreateTask", Loc: ifCond("waitingBlocks", 0),
+		Params: "(wait : Int)", Type: "Bool", Default: "false", Vars: ct})
 	emitSite(fc, g, Site{Name: "ctClosingBlock", File: tk, Func: "CreateTask", Loc: assignTo("closingBlock", 0),
 		Params: "(h wait : Int)", Type: "Int", Default: "0", Vars: ct})
 	msv := map[string]Var{"msg.Wait": iv("wait"), "msg.ValidDuration": iv("validNs")}
@@ -110,6 +116,8 @@ func genOracle(fc *fileCache) {
 		Params: "(minC : Int)", Type: "Int", Default: "0", Vars: ag})
 	emitSite(fc, g, Site{Name: "aggMean", File: tk, Func: "Aggregate", Loc: assignTo("result", 3),
 		Params: "(result total : Int)", Type: "Int", Default: "0", Vars: ag})
+	emitSite(fc, g, Site{Name: "aggFailResult", File: tk, Func: "Aggregate", Loc: assignTo("result", 4),
+		Params: "(aggRes : Int)", Type: "Int", Default: "0", Vars: ag})
 	emitSite(fc, g, Site{Name: "aggHasCollateral", File: tk, Func: "Aggregate", Loc: ifCond("totalCollateral.IsPositive", 0),
 		Params: "(total : Int)", Type: "Bool", Default: "false", Vars: ag})
 	emitSite(fc, g, Site{Name: "aggMinRegime", File: tk, Func: "Aggregate", Loc: ifCond("minScoreCollateral.MulRaw", 0),
